@@ -56,6 +56,19 @@ Deciding monitor M (boundary oracle = the packing model):
   attributes seekable / readable / name / closed / mode, and a read-only ``mmap.mmap`` of a real file.  Such a package
   is driven through exactly the same queries and judged by exactly the same comparisons as with BytesIO; in addition
   ``ArFile(fileobj=<same kind>)`` must list the written members and give their bytes back.
+* close, then use again (``close`` class): 45% of the packages carry 1..3 close steps BETWEEN their shuffled queries:
+  ``deb.close()``, ``deb.control.close()``, ``deb.data.close()``, both parts, ``close()`` twice, and
+  ``with deb: <some of the queries>`` (DebFile is the only class of the two modules with ``__enter__/__exit__`` on
+  the unchanged tree).  The same object is asked again afterwards; every answer after the step is judged exactly as
+  the answers before it (against the packing description, so "after == before").  fileobj= (BytesIO and the four
+  minimal kinds) and filename=, every compression of both parts.
+* several readers alive at once (``multi`` cases): 2 or 3 DebFile objects on DIFFERENT packages (own control
+  fields, scripts, md5sums, data files; same or different part compressions; all fileobj=, all filename= or mixed),
+  or two readers on the SAME package (same path for filename=), are constructed one after the other, all kept
+  alive, and asked alternately in bursts of 1..9 queries (reader 1 is asked either only after reader 2 exists, or a
+  little before and then again after); readers that are done are closed and dropped while the others are still
+  being asked.  Each reader is a full package history (second use, close steps, edge names ...) judged against ITS
+  OWN packing description.
 """
 import bz2
 import gzip
@@ -153,7 +166,26 @@ RULE = ('Packages are generated from a seeded description (control fields incl. 
         'md5sums in both encodings, has_file / in / get_content / get_file / [] incl. text mode, iteration, second use) are '
         'made and judged exactly as for a BytesIO package; afterwards ArFile(fileobj=<same kind of object>) must list the '
         'members written and return their bytes.  Every kind must meet every compression of the control part and of the '
-        'data part at least its floor, else INCONCLUSIVE.')
+        'data part at least its floor, else INCONCLUSIVE.  '
+        'Close-then-use-again class (counters close:*, monitors M.close, M.close.query): 45% of the packages (of every '
+        'way of opening) carry 1..3 close steps at seeded positions among their shuffled queries (start, end, anywhere, '
+        'mostly the middle): deb.close(), deb.control.close(), deb.data.close(), data.close()+control.close(), '
+        'deb.close() twice, and `with deb:` around the next 0..12 queries; the same DebFile is then asked the rest of '
+        'its queries (incl. the second-use calls through both routes).  M.close.query counts the queries judged on an '
+        'object AFTER such a step; they are judged by the same comparisons as before the step.  Every compression of '
+        'the control part and of the data part must have met a close step in fileobj= form and in filename= form at '
+        'least its floor (close:<form>:<part>:<compression>), else INCONCLUSIVE.  '
+        'Several-readers class (case kind multi; counters multi:*, monitors M.multi, M.multi.query): cases with 2 (70%) '
+        'or 3 (30%) DebFile objects alive at once: different packages (own seeded description each; part compressions '
+        'equal in all readers or drawn anew per reader, so readers share part names in some cases and not in others), or '
+        '(15%) the same package twice (same bytes; same path under filename=; other query order); 30% all filename=, 25% '
+        'all fileobj= (BytesIO / minimal kinds), rest as drawn.  Reader 1 is constructed first and asked 0 (3 of 7 '
+        'cases) or 1..25 queries, then the other readers are constructed, then a seeded schedule advances one reader at '
+        'a time by 1..burst steps (burst 1..9), always switching to another reader; a reader whose queries are all made '
+        'is, with probability 1/2, closed and dropped at once while the others go on, otherwise at the end in seeded '
+        'order.  M.multi.query counts the queries judged while at least one OTHER DebFile object was alive; every answer '
+        'is compared with the packing description of the reader\'s own package.  A multi case is non-trivial when every '
+        'package in it has >= 1 data file and >= 1 script.')
 ASSUMPTIONS = [
     'vp.models.arwriter writes a well-formed ar archive (checked against `ar t` / dpkg-deb in the thorough tier when installed)',
     'stdlib tarfile/gzip/bz2/lzma produce valid tarballs; tar members are written with the ./ prefix (dpkg convention, the form the reader documents)',
@@ -185,6 +217,10 @@ ASSUMPTIONS = [
     'minimal-interface objects: what the unchanged tree calls on fileobj= is read(n), seek(pos) / seek(off, 1) and tell() (ArFile.__collect_members, ArMember.from_file, ArMember.read) plus its truth value (`elif self.__fileobj:`); all four object kinds are truthy and were established to serve every query for all 25 compression pairs on the unchanged tree.  The wrappers have the standard signatures read(size=-1), seek(offset, whence=0) -> new position, tell(); mmap.seek returns None on this Python, which the unchanged tree never looks at',
     'ArMember.readline / readlines of the container layer are NOT exercised on minimal objects (they need readline(size) of the underlying object, which read/seek/tell objects do not have and mmap spells differently); the ArFile check uses getnames(), getmembers() and member.read() only',
     'mmap kind: the package is written to a temporary file, mapped ACCESS_READ, and unmapped after the DebFile was closed; where the mmap module is missing the kind (and its floors) do not exist',
+    'close-then-use-again: the statement does not mention close(); what is judged is what the unchanged tree was established to support (probe over all 25 compression pairs x BytesIO / filename= / the four minimal kinds x every kind of close step, 0 disagreements): after deb.close(), deb.control.close(), deb.data.close(), a second close() and after leaving `with deb:` the same object answers every query exactly as before (fileobj=: close() leaves the caller\'s file object alone; filename=: the member re-opens the file at the position it had).  Demanded: the step itself does not raise, and the answers after it equal the packing description (= the answers before it).  NOT demanded: anything of a file handle obtained from get_file() BEFORE the step and read after it (works on the unchanged tree, but a reader that invalidates handles on close() would be correct too); anything after the file named by filename= was removed or changed; the state of the caller\'s file object (closed or not) after close()',
+    'context manager: only DebFile has __enter__/__exit__ on the unchanged tree (DebPart, ArFile, ArMember have not), so `with` is used on the DebFile only; the value bound by `with deb as x` is not looked at (the unchanged tree returns the object itself); queries inside the block go to `deb`',
+    'several readers: each reader gets its own file object / its own path (two readers on the same package under filename= read the same path, which exists until the last of them is done); one file object is never shared between two DebFile objects (the second constructor would start reading where the first one left the position - outside the statement); everything happens in one thread, a reader is never asked while another one is inside a call',
+    'several readers: the container-layer check ArFile(fileobj=<minimal kind>) is not repeated for the readers of a multi case',
 ]
 ANCHORS = ['debian.debfile:DebFile.__init__',
            'debian.debfile:DebPart.tgz',
@@ -207,6 +243,7 @@ MUST_REACH = ['debian.debfile:DebFile.__init__', 'debian.debfile:DebPart.tgz', '
 PKGS = {'quick': 2000, 'thorough': 120000}          # TOTAL package cases per tier
 RANDOM_SETS = {'quick': 2000, 'thorough': 200000}   # TOTAL seeded larger member multisets per tier
 LOOK_SETS = {'quick': 600, 'thorough': 42000}       # TOTAL seeded member sets with look-alike part names per tier
+MULTI = {'quick': 200, 'thorough': 9000}            # TOTAL cases with 2..3 DebFile objects alive at once per tier
 
 FLOORS = {   # ~50% of what a run on the unchanged tree measures (quick: min over seeds 0-3; thorough: seed 0)
     'quick': {'nontrivial': 800,
@@ -663,9 +700,52 @@ FOBJ_FLOOR = {
 }
 
 
+# Floors of the close-then-use-again class and of the several-readers class (quick: ~50% of the minimum over seeds 0-3;
+# thorough: ~50% of seed 0).  A run that never closes an object in mid-history, never asks one afterwards, or never has
+# two DebFile objects alive at once is INCONCLUSIVE.  Every compression of both parts must have met a close step in
+# fileobj= form and in filename= form.
+CLOSE_FLOOR = {
+    'quick': {'monitors': {'M.close': 950, 'M.close.query': 24000},
+              'per-form-part-compression': {'fileobj': 115, 'filename': 38},
+              'counters': {'close:pkg': 550, 'close:pkg:filename': 155, 'close:pkg:fileobj': 380,
+                           'close:how:deb.close': 240, 'close:how:control.close': 110, 'close:how:data.close': 110,
+                           'close:how:parts': 100, 'close:how:twice': 110, 'close:how:with': 230,
+                           'close:open:filename': 270, 'close:open:fileobj': 400, 'close:open:fileobj:plain': 50,
+                           'close:open:fileobj:rst': 60, 'close:open:fileobj:rstl': 60, 'close:open:mmap': 55,
+                           'close:query-after-close:filename': 6600, 'close:query-after-close:fileobj': 17000,
+                           'close:query-inside-with': 1200}},
+    'thorough': {'monitors': {'M.close': 0, 'M.close.query': 0},
+                 'per-form-part-compression': {'fileobj': 0, 'filename': 0},
+                 'counters': {}},
+}
+MULTI_FLOOR = {
+    'quick': {'monitors': {'M.multi': 100, 'M.multi.query': 14000},
+              'counters': {'multi:different-packages': 80, 'multi:same-package': 14, 'multi:readers=2': 70, 'multi:readers=3': 23,
+                           'multi:first-reader-asked-before-second-constructed': 54,
+                           'multi:first-reader-asked-only-after-second-constructed': 40,
+                           'multi:step-of-first-reader-before-second-constructed': 480,
+                           'multi:open:all-filename': 32, 'multi:open:all-fileobj': 45, 'multi:open:mixed': 15,
+                           'multi:query:filename': 5600, 'multi:query:fileobj': 7800, 'multi:query-after-close': 3700,
+                           'multi:query-by-reader-1': 5600, 'multi:query-by-reader-2': 6400, 'multi:query-by-reader-3': 1580,
+                           'multi:query-with-two-others-alive': 4000, 'multi:switch-between-readers': 8400,
+                           'multi:reader-closed-while-others-are-still-asked': 110,
+                           'multi:some-part-name-shared-between-readers': 76,
+                           'multi:some-part-name-differs-between-readers': 38}},
+    'thorough': {'monitors': {'M.multi': 0, 'M.multi.query': 0}, 'counters': {}},
+}
+
+
 def _install_new_floors():
     for tier in ('quick', 'thorough'):
         mon, cnt = FLOORS[tier]['monitors'], FLOORS[tier]['counters']
+        for table in (CLOSE_FLOOR, MULTI_FLOOR):
+            mon.update((k, v) for k, v in table[tier]['monitors'].items() if v)
+            cnt.update((k, v) for k, v in table[tier]['counters'].items() if v)
+        for form, floor in CLOSE_FLOOR[tier]['per-form-part-compression'].items():
+            for part in ('control', 'data'):
+                for comp in COMP:
+                    if floor:
+                        cnt['close:%s:%s:%s' % (form, part, comp or 'none')] = floor
         mon.update(LOOK_FLOOR[tier]['monitors'])
         mon.update(FOBJ_FLOOR[tier]['monitors'])
         cnt.update((k, v) for k, v in LOOK_FLOOR[tier]['counters'].items() if v)
@@ -1299,7 +1379,55 @@ def gen_pkg(r, j, cc, dc):
     k, pick = r.random(), r.randrange(len(FOBJ_KINDS))
     if case['open'] == 'fileobj' and k < 0.4:
         case['open'] = FOBJ_KINDS[pick]
+    # close-then-use-again class (drawn last again): 45% of the packages carry 1..3 close steps among their queries
+    case['close'] = gen_close(r)
     return case
+
+
+CLOSE_HOWS = ['deb.close', 'control.close', 'data.close', 'parts', 'twice', 'with']
+
+
+def gen_close(r, p=0.45):
+    """-> [[position in permille of the shuffled query list, how, span (queries inside a `with` block)], ...]"""
+    k, n = r.random(), r.choice([1, 1, 2, 3])
+    out = []
+    for _ in range(n):
+        how = r.choice(CLOSE_HOWS + ['deb.close', 'with'])
+        pos = r.choice([0, 1000, r.randrange(1001), r.randrange(200, 800), r.randrange(200, 800)])
+        out.append([pos, how, r.randint(0, 12) if how == 'with' else 0])
+    return out if k < p else []
+
+
+def gen_multi(ctx, r, j, vstate):
+    """several-readers class: 2 or 3 package descriptions (different packages; or the same one twice) whose readers
+    are alive at the same time, and the schedule by which they are asked"""
+    k = r.random()
+    nreaders = 3 if k < 0.3 else 2
+    same = 0.3 <= k < 0.45
+    # compressions: the same part names in all readers (what a per-name cache would confuse) or different ones
+    cc, dc = COMP[j % 5], COMP[(j // 5) % 5]
+    pkgs = []
+    for i in range(nreaders):
+        if i and r.random() < 0.5:
+            cc, dc = r.choice(COMP), r.choice(COMP)
+        pkgs.append(assign_variants(gen_pkg(r, (j * ctx.nshards + ctx.shard) * 3 + i, cc, dc), vstate, offset=5 * ctx.shard + 2))
+    if same:
+        pkgs[1] = json.loads(json.dumps(pkgs[0]))
+        pkgs[1]['qseed'] = pkgs[0]['opseed'] + 1        # same package (same bytes), other order of the queries
+        pkgs[1]['reuse'] = gen_reuse(r, pkgs[1])
+        pkgs[1]['close'] = gen_close(r)
+    # the way of opening: all fileobj=, all filename=, or mixed (as drawn by gen_pkg)
+    k = r.random()
+    if k < 0.3:
+        for c in pkgs:
+            c['open'] = 'filename'
+    elif k < 0.55:
+        for c in pkgs:
+            if c['open'] == 'filename':
+                c['open'] = 'fileobj'
+    # half of the multi cases make the first reader answer some queries before the next one is constructed
+    sched = {'seed': r.randrange(10 ** 6), 'pre': r.choice([0, 0, 0, 1, 3, 8, 25]), 'burst': r.choice([1, 1, 2, 4, 9])}
+    return {'kind': 'multi', 'pkgs': pkgs, 'same': bool(same), 'sched': sched}
 
 
 # --- member-set enumerations ------------------------------------------------
@@ -1566,6 +1694,9 @@ def cases(ctx):
         else:
             cc, dc = r.choice(COMP), r.choice(COMP)
         yield assign_variants(gen_pkg(r, j * ctx.nshards + ctx.shard, cc, dc), vstate, offset=5 * ctx.shard)
+    # (3b) several DebFile objects alive at once (2 or 3 different packages, or one package twice), asked alternately
+    for j in range(ctx.size(MULTI['quick'], MULTI['thorough'])):
+        yield gen_multi(ctx, ctx.rng('multi', j), j, vstate)
     # (4) generator sanity against the real tools (thorough, shard 0 only; never a verdict input)
     if ctx.tier == 'thorough' and ctx.shard == 0 and shutil.which('dpkg-deb'):
         for j in range(60):
@@ -1612,8 +1743,13 @@ def cases(ctx):
 
 
 class Findings(list):
+    """(mechanism key, message) pairs.  sfx_fn (optional) names the history class the finding was made in: a query
+    made after close() / after leaving a `with` block on this object gets '/after-close', a query made while another
+    DebFile object is alive gets '/several-readers-alive' - so that a witness says which class of history it needs"""
+    sfx_fn = None
+
     def add(self, key, msg):
-        self.append((key, msg))
+        self.append((key + (self.sfx_fn() if self.sfx_fn else ''), msg))
 
 
 # --- file objects with a minimal interface ----------------------------------------------------------------------
@@ -1676,26 +1812,49 @@ FOBJ_TEXT = {'fileobj:rst': 'an object with read/seek/tell only', 'fileobj:rstl'
 _install_new_floors()
 
 
-def open_deb(ctx, raw, how, cls=None):
+_PATH_USERS = {}       # path -> number of live readers that were given this path (harness bookkeeping)
+
+
+def open_deb(ctx, raw, how, cls=None, tag=''):
     """-> (opener, cleanup).  how: 'fileobj' (BytesIO), 'filename', 'fileobj:rst|rstl|plain' (minimal-interface
-    wrappers), 'mmap' (read-only mmap of a real file).  cls: the class to instantiate (DebFile by default)"""
+    wrappers), 'mmap' (read-only mmap of a real file).  cls: the class to instantiate (DebFile by default).
+    tag: distinguishes the files of several readers that are alive at once (one path per reader)"""
     from debian import debfile
     cls = cls or debfile.DebFile
     if how in ('filename', 'mmap'):
         d = ctx.tmpdir() if not getattr(ctx, '_c07dir', None) else ctx._c07dir
         ctx._c07dir = d
-        path = os.path.join(d, 'p%d.deb' % os.getpid())
+        path = os.path.join(d, 'p%d%s.deb' % (os.getpid(), tag))
 
         def unlink():
             try:
                 os.unlink(path)
             except OSError:
                 pass
-        unlink()        # never write into a file that an earlier (failed) case may still have mapped
-        with open(path, 'wb') as f:
-            f.write(raw)
+
+        def release():
+            _PATH_USERS[path] = _PATH_USERS.get(path, 0) - 1
+            if _PATH_USERS[path] <= 0:
+                _PATH_USERS.pop(path, None)
+                unlink()
+        shared = False
+        while _PATH_USERS.get(path, 0) > 0 and not shared:
+            # a reader that is still alive uses this path (two readers on the same package): same bytes -> same file;
+            # other bytes (hand-written case) -> another path, the live reader keeps its file
+            try:
+                with open(path, 'rb') as f:
+                    shared = f.read() == raw
+            except OSError:
+                shared = False
+            if not shared:
+                path = path[:-4] + 'x.deb'
+        if not shared:
+            unlink()    # never write into a file that an earlier (failed) case may still have mapped
+            with open(path, 'wb') as f:
+                f.write(raw)
+        _PATH_USERS[path] = _PATH_USERS.get(path, 0) + 1
         if how == 'filename':
-            return (lambda: cls(filename=path)), unlink
+            return (lambda: cls(filename=path)), release
         f = open(path, 'rb')
         mm = _mmap.mmap(f.fileno(), 0, access=_mmap.ACCESS_READ)
 
@@ -1705,7 +1864,7 @@ def open_deb(ctx, raw, how, cls=None):
             except (BufferError, ValueError):
                 pass
             f.close()
-            unlink()
+            release()
         return (lambda: cls(fileobj=mm)), cleanup
     if how in FOBJ_CLASSES:
         return (lambda: cls(fileobj=FOBJ_CLASSES[how](raw))), (lambda: None)
@@ -1734,11 +1893,34 @@ def brief(b, limit=60):
 
 def check_pkg(ctx, case, stats):
     """Execute one package case; returns Findings.  `stats` is ctx (count/mon) or None (shrinking re-runs)."""
-    from debian import debfile
     out = Findings()
+    for _ in pkg_steps(ctx, case, stats, out):
+        pass
+    return out
+
+
+def open_class(opened):
+    return 'filename' if opened == 'filename' else 'fileobj'
+
+
+def pkg_steps(ctx, case, stats, out, role=None):
+    """One package case as a generator: yields 'opened' once the DebFile exists, 'op' before every query / close
+    step, 'ops-done' before the end-of-case comparisons and the final close.  check_pkg runs it to the end; check_multi
+    keeps several of them (= several DebFile objects) alive and advances them alternately.  role (multi cases only):
+    {'idx': number of this reader, 'alive': [number of OTHER DebFile objects alive now]} - kept up to date by the driver."""
+    from debian import debfile
 
     raw, model = build_pkg(case)
     var_parts = [p for p in ('control', 'data') if model['variants'][p]]
+    hist = {'closed': 0}        # number of close() / with-exit steps made on this object so far
+
+    def others_alive():
+        return role['alive'][0] if role else 0
+
+    def history_sfx():
+        return ('/after-close' if hist['closed'] else '') + ('/several-readers-alive' if others_alive() else '')
+
+    out.sfx_fn = history_sfx
 
     def mon(name, n=1):
         if stats is not None:
@@ -1747,6 +1929,17 @@ def check_pkg(ctx, case, stats):
                 stats.mon('M.var.query', n)     # a query judged on a package with a non-default encoder variant
             if name == 'M.query' and case.get('open') in FOBJ_KINDS:
                 stats.mon('M.fobj.query', n)    # a query judged on a DebFile that reads from a minimal-interface object
+            if name == 'M.query' and hist['closed']:
+                stats.mon('M.close.query', n)   # a query judged on an object that was closed before
+                stats.count('close:query-after-close:' + open_class(opened), n)
+            if name == 'M.query' and others_alive():
+                stats.mon('M.multi.query', n)   # a query judged while at least one other DebFile object is alive
+                stats.count('multi:query-by-reader-%d' % (role['idx'] + 1), n)
+                stats.count('multi:query:%s' % open_class(opened), n)
+                if others_alive() >= 2:
+                    stats.count('multi:query-with-two-others-alive', n)
+                if hist['closed']:
+                    stats.count('multi:query-after-close', n)
 
     def count(name, n=1):
         if stats is not None:
@@ -1754,7 +1947,7 @@ def check_pkg(ctx, case, stats):
 
     opened = case.get('open', 'fileobj')
     minimal = opened in FOBJ_KINDS
-    opener, cleanup = open_deb(ctx, raw, opened)
+    opener, cleanup = open_deb(ctx, raw, opened, tag='-r%s' % role.get('tag', role['idx']) if role else '')
     count('open:' + opened)
     if minimal:
         # minimal-interface class: counted per object kind and compression of each part (floors: every kind meets
@@ -1791,12 +1984,13 @@ def check_pkg(ctx, case, stats):
         out.add('wellformed-package-rejected', 'DebFile() raised DebError(%s) for control=%r data=%r ar order %r style %s'
                 % (e, part_name('control', case['cc']), part_name('data', case['dc']), case['ar']['order'], case['ar'].get('style')))
         cleanup()
-        return out
+        return
     except Exception as e:
         out.add('constructor-raises/%s' % type(e).__name__, 'DebFile() raised %r on a well-formed package (control=%r data=%r)'
                 % (e, part_name('control', case['cc']), part_name('data', case['dc'])))
         cleanup()
-        return out
+        return
+    yield 'opened'
 
     files = model['files']
     scan = brk_scan(case['fields'])
@@ -1882,7 +2076,7 @@ def check_pkg(ctx, case, stats):
         for sp in spellings(files[i][0]):
             ops.append(('has', i, sp))
             ops.append(('content', i, sp))
-    rr = random.Random(case.get('opseed', 0))
+    rr = random.Random(case.get('qseed', case.get('opseed', 0)))
     present = set(n for n, _ in files) | set(model['dirs']) | set(model['links'])
     absent = []
     others = [i for i in range(len(cfiles)) if i not in cedge]
@@ -1927,9 +2121,15 @@ def check_pkg(ctx, case, stats):
     for d in model['dirs'][:4] + model['links']:
         ops.append(('other', d))
     rr.shuffle(ops)
+    # close-then-use-again class: close steps go between the shuffled queries (positions in permille of the shuffled
+    # list, so that queries lie before AND behind them); a 'with' step takes the following `span` queries into the block
+    closes = sorted(((min(1000, max(0, c[0])) * len(ops) // 1000, i, c) for i, c in enumerate(case.get('close') or [])),
+                    reverse=True)
+    for pos, _, c in closes:
+        ops.insert(pos, ('close', c[1], c[2] if len(c) > 2 else 0))
     ops.extend(tail)        # after the shuffled part: every re-used family once more through both routes
 
-    for op in ops:
+    def run_op(op):
         kind = op[0]
         count('op:' + kind)
         try:
@@ -1937,7 +2137,7 @@ def check_pkg(ctx, case, stats):
                 mon('M.query')
                 if brk == 'edge':
                     count('brk:out-of-domain:debcontrol-not-compared')
-                    continue
+                    return
                 if brk:
                     mon('M.brk.fields')
                 route, muts = op[1], op[2]
@@ -1952,7 +2152,7 @@ def check_pkg(ctx, case, stats):
                     # value while the paragraph is being built: tolerated for tight placements, never demanded
                     count('brk:tight:debcontrol-raised-ValueError')
                     second_use('control', route, None, None)
-                    continue
+                    return
                 if brk == 'tight':
                     count('brk:tight:debcontrol-returned')
                 pairs = [(k, got[k]) for k in got.keys()]
@@ -2163,7 +2363,73 @@ def check_pkg(ctx, case, stats):
                 usfx = use_sfx(fam)
                 calls[fam] = calls.get(fam, 0) + 1
             out.add('%s-raises/%s%s%s' % (what, type(e).__name__, sfx if kind in ('control', 'ctlraw', 'ctltext') else '', usfx),
-                    '%r raised %r' % (op, e))
+                    '%r raised %r%s' % (op, e, history_text()))
+
+    def history_text():
+        bits = []
+        if hist['closed']:
+            bits.append('%d close step(s) %r were made on this object before' % (hist['closed'], hist.get('hows')))
+        if others_alive():
+            bits.append('%d other DebFile object(s) alive' % others_alive())
+        return (' [' + '; '.join(bits) + ']') if bits else ''
+
+    def do_close(how):
+        """close()-family step; the object is used again afterwards.  Established on the unchanged tree for fileobj=
+        (all kinds) and filename= and all 25 compression pairs: every query answers after it exactly as before."""
+        count('close:how:' + how)
+        count('close:open:' + opened)
+        count('close:%s:control:%s' % (open_class(opened), case['cc'] or 'none'))
+        count('close:%s:data:%s' % (open_class(opened), case['dc'] or 'none'))
+        mon('M.close')
+        if how == 'deb.close':
+            deb.close()
+        elif how == 'control.close':
+            deb.control.close()
+        elif how == 'data.close':
+            deb.data.close()
+        elif how == 'parts':
+            deb.data.close()
+            deb.control.close()
+        elif how == 'twice':
+            deb.close()
+            deb.close()
+        else:
+            raise ValueError('unknown close step %r' % (how,))
+
+    i = 0
+    while i < len(ops):
+        op = ops[i]
+        i += 1
+        if op[0] != 'close':
+            yield 'op'
+            run_op(op)
+            continue
+        yield 'op'
+        how = op[1]
+        count('op:close')
+        try:
+            if how == 'with':
+                # `with deb:` around the next `span` queries (DebFile has __enter__/__exit__ on the unchanged tree;
+                # DebPart / ArFile / ArMember have not - nothing is asked of them); afterwards the object is used again
+                count('close:how:with')
+                count('close:open:' + opened)
+                count('close:%s:control:%s' % (open_class(opened), case['cc'] or 'none'))
+                count('close:%s:data:%s' % (open_class(opened), case['dc'] or 'none'))
+                mon('M.close')
+                inside = [o for o in ops[i:i + max(0, op[2])] if o[0] != 'close']
+                i += len(inside)
+                with deb:
+                    for o in inside:
+                        yield 'op'
+                        count('close:query-inside-with')
+                        run_op(o)
+            else:
+                do_close(how)
+            hist['closed'] += 1
+            hist.setdefault('hows', []).append(how)
+        except Exception as e:      # noqa - close() / with must not raise on an object that is in order
+            out.add('close-raises/%s/mid-history' % type(e).__name__, 'close step %r raised %r%s' % (how, e, history_text()))
+    yield 'ops-done'
     # results the caller kept without changing them: still the packed content?
     for fam, obj, n in held:
         mon('M.held')
@@ -2187,7 +2453,7 @@ def check_pkg(ctx, case, stats):
         out.add('close-raises/%s' % type(e).__name__, repr(e))
     del deb
     cleanup()
-    if minimal:
+    if minimal and not role:
         # the container layer on its own: ArFile(fileobj=<same kind of object>) must list the members that were
         # written and give their bytes back through read()
         from debian import arfile
@@ -2210,7 +2476,6 @@ def check_pkg(ctx, case, stats):
         except Exception as e:
             out.add('arfile-raises/%s/minimal-file-object' % type(e).__name__, 'ArFile(fileobj=%s): %r' % (FOBJ_TEXT[opened], e))
         cleanup()
-    return out
 
 
 def check_set(ctx, case, stats):
@@ -2348,7 +2613,150 @@ def check_set(ctx, case, stats):
         cleanup()
 
 
+def check_multi(ctx, case, stats):
+    """Several DebFile objects alive at once.  Every reader is a pkg_steps generator (= one package description, one
+    DebFile, its own shuffled queries / second uses / close steps, judged against ITS OWN packing description); the
+    driver constructs them one after the other, keeps all of them alive and advances them alternately."""
+    out = Findings()
+    pkgs = case['pkgs']
+    n = len(pkgs)
+    sched = case.get('sched') or {}
+    rs = random.Random(sched.get('seed', 0))
+    burst = max(1, sched.get('burst', 1))
+    state = ['new'] * n             # new -> open (constructed, being asked) -> waiting (all asked, object kept) -> done
+    # two readers on the same package given by file name read the same path
+    tags = [0 if (case.get('same') and i == 1) else i for i in range(n)]
+    roles = [{'idx': i, 'tag': tags[i], 'alive': [0]} for i in range(n)]
+    outs = [Findings() for _ in range(n)]
+    gens = [pkg_steps(ctx, pkgs[i], stats, outs[i], roles[i]) for i in range(n)]
+
+    def count(name, k=1):
+        if stats is not None:
+            stats.count(name, k)
+
+    def refresh():
+        for i in range(n):
+            roles[i]['alive'][0] = sum(1 for j in range(n) if j != i and state[j] in ('open', 'waiting'))
+
+    def advance(i):
+        try:
+            ev = next(gens[i])
+        except StopIteration:
+            ev = None
+            state[i] = 'done'
+        else:
+            if ev == 'opened':
+                state[i] = 'open'
+            elif ev == 'ops-done':
+                state[i] = 'waiting'
+        refresh()
+        return ev
+
+    if stats is not None:
+        stats.mon('M.multi')
+        count('multi:readers=%d' % n)
+        count('multi:same-package' if case.get('same') else 'multi:different-packages')
+        opens = set(open_class(c.get('open', 'fileobj')) for c in pkgs)
+        count('multi:open:' + ('mixed' if len(opens) > 1 else 'all-' + opens.pop()))
+        names = [(part_name('control', c['cc']), part_name('data', c['dc'])) for c in pkgs]
+        shared = any(names[i][k] == names[j][k] for i in range(n) for j in range(i) for k in (0, 1))
+        differ = any(names[i][k] != names[j][k] for i in range(n) for j in range(i) for k in (0, 1))
+        if shared:
+            count('multi:some-part-name-shared-between-readers')
+        if differ:
+            count('multi:some-part-name-differs-between-readers')
+    try:
+        # reader 1 is constructed (and may answer `pre` queries) before reader 2 exists
+        advance(0)
+        pre = sched.get('pre', 0)
+        for _ in range(pre + 1 if pre else 0):
+            if state[0] != 'open':
+                break
+            advance(0)
+            count('multi:step-of-first-reader-before-second-constructed')
+        if pre:
+            count('multi:first-reader-asked-before-second-constructed')
+        else:
+            count('multi:first-reader-asked-only-after-second-constructed')
+        for i in range(1, n):
+            advance(i)
+        last = None
+        while any(st == 'open' for st in state):
+            ready = [i for i in range(n) if state[i] == 'open']
+            others = [i for i in ready if i != last]
+            i = rs.choice(others or ready)
+            if last is not None and i != last:
+                count('multi:switch-between-readers')
+            last = i
+            for _ in range(rs.randint(1, burst)):
+                if advance(i) != 'op':
+                    break
+            if state[i] == 'waiting' and rs.random() < 0.5:
+                # this reader is finished (end-of-case comparisons, close(), object dropped) while the others go on
+                count('multi:reader-closed-while-others-are-still-asked')
+                advance(i)
+        order = [i for i in range(n) if state[i] == 'waiting']
+        rs.shuffle(order)
+        for i in order:
+            advance(i)
+    finally:
+        for g in gens:
+            g.close()
+    for i in range(n):
+        c = pkgs[i]
+        for key, msg in outs[i]:
+            out.append((key, 'reader %d of %d%s (Package %s, %s + %s, %s): %s' % (
+                i + 1, n, ' on the same package' if case.get('same') and i < 2 else '',
+                dict((k, v) for k, v in c['fields']).get('Package'), part_name('control', c['cc']),
+                part_name('data', c['dc']), c.get('open', 'fileobj'), msg)))
+    return out
+
+
 # --- shrinking (only on a violation; every candidate is re-executed and kept only if the same mechanism fires)
+
+def _multi_candidates(case):
+    pkgs = case['pkgs']
+    if len(pkgs) > 2:
+        for i in range(len(pkgs)):
+            yield dict(case, pkgs=pkgs[:i] + pkgs[i + 1:], same=bool(case.get('same') and i > 1))
+    sched = case.get('sched') or {}
+    if sched.get('pre'):
+        yield dict(case, sched=dict(sched, pre=0))
+    if sched.get('burst', 1) != 1:
+        yield dict(case, sched=dict(sched, burst=1))
+    if not case.get('same'):
+        for i, c in enumerate(pkgs):
+            for key in ('reuse', 'close', 'extra', 'links'):
+                if c.get(key):
+                    yield dict(case, pkgs=pkgs[:i] + [dict(c, **{key: []})] + pkgs[i + 1:])
+        for i, c in enumerate(pkgs):
+            for cand in _shrink_candidates(c):
+                yield dict(case, pkgs=pkgs[:i] + [cand] + pkgs[i + 1:])
+    else:
+        for key in ('reuse', 'close', 'extra', 'links'):
+            if any(c.get(key) for c in pkgs):
+                yield dict(case, pkgs=[dict(c, **{key: []}) for c in pkgs])
+
+
+def shrink_multi(ctx, case, key, budget=40):
+    cur = case
+    progress = True
+    while progress and budget > 0:
+        progress = False
+        for cand in _multi_candidates(cur):
+            budget -= 1
+            if budget <= 0:
+                break
+            try:
+                f = check_multi(ctx, cand, None)
+            except Exception:
+                continue
+            if any(k == key for k, _ in f):
+                cur = cand
+                progress = True
+                break
+    return cur
+
 
 def _shrink_candidates(case):
     def variant(**kw):
@@ -2371,6 +2779,15 @@ def _shrink_candidates(case):
         if len(case['extra']) > 1:
             for e in case['extra']:
                 yield variant(extra=[e])
+    closes = case.get('close') or []
+    if closes:
+        yield variant(close=[])
+        if len(closes) > 1:
+            for c in closes:
+                yield variant(close=[c])
+        for c in closes:
+            if c[1] not in ('deb.close', 'with'):
+                yield variant(close=[[c[0], 'deb.close', 0]])
     reuse = case.get('reuse') or []
     if reuse:
         yield variant(reuse=[])
@@ -2494,7 +2911,7 @@ def report(ctx, case, findings, shrinker):
             try:
                 small = shrinker(ctx, case, key)
                 if small is not case:
-                    again = [m for k, m in (check_pkg if case['kind'] != 'set' else check_set)(ctx, small, None) if k == key]
+                    again = [m for k, m in {'set': check_set, 'multi': check_multi}.get(case['kind'], check_pkg)(ctx, small, None) if k == key]
                     if again:
                         msg = again[0]
                     else:
@@ -2513,6 +2930,32 @@ def report(ctx, case, findings, shrinker):
 def run_case(ctx, case):
     kind = case['kind']
     if kind == 'pkg':
+        describe_pkg(ctx, case)
+        findings = check_pkg(ctx, case, ctx)
+        if case['files'] and case['scripts']:
+            ctx.nontrivial(case)
+        report(ctx, case, findings, shrink_pkg)
+    elif kind == 'multi':
+        for c in case['pkgs']:
+            describe_pkg(ctx, c)
+        findings = check_multi(ctx, case, ctx)
+        if all(c['files'] and c['scripts'] for c in case['pkgs']):
+            ctx.nontrivial(case)
+        report(ctx, case, findings, shrink_multi)
+    elif kind == 'set':
+        findings = check_set(ctx, case, ctx)
+        report(ctx, case, findings, shrink_set)
+    elif kind == 'dpkgdeb':
+        dpkg_sanity(ctx, case)
+    elif kind == 'toolcheck':
+        tool_sanity(ctx, case)
+    else:
+        raise ValueError('unknown case kind %r' % kind)
+
+
+def describe_pkg(ctx, case):
+    """workload bookkeeping of one package description (counters that do not depend on what the library answers)"""
+    if True:
         ctx.extra.setdefault('config_pairs_covered', set())
         if not isinstance(ctx.extra['config_pairs_covered'], set):
             ctx.extra['config_pairs_covered'] = set(ctx.extra['config_pairs_covered'])
@@ -2563,19 +3006,11 @@ def run_case(ctx, case):
                 ctx.count('brk:place:' + place)
                 ctx.count('brk:line:' + ('continuation' if li else
                                          'first-of-multi-line' if '\n' in case['fields'][fi][1] else 'single-line'))
-        findings = check_pkg(ctx, case, ctx)
-        if case['files'] and case['scripts']:
-            ctx.nontrivial(case)
-        report(ctx, case, findings, shrink_pkg)
-    elif kind == 'set':
-        findings = check_set(ctx, case, ctx)
-        report(ctx, case, findings, shrink_set)
-    elif kind == 'dpkgdeb':
-        dpkg_sanity(ctx, case)
-    elif kind == 'toolcheck':
-        tool_sanity(ctx, case)
-    else:
-        raise ValueError('unknown case kind %r' % kind)
+        closes = case.get('close') or []
+        if closes:
+            ctx.count('close:pkg')
+            ctx.count('close:pkg:' + open_class(case.get('open', 'fileobj')))
+            ctx.count('close:pkg:steps=%d' % min(len(closes), 4))
 
 
 def dpkg_sanity(ctx, case):
@@ -2673,7 +3108,9 @@ LEVEL_TEXT = ('Runtime monitoring: 2e3 (quick) / 1.2e5 (thorough) harness-assemb
               'demanding DebError and nothing else for defective ones.  Three of four parts are written with one of ~110 '
               'non-default but valid encoder parameter sets (lzma lc/lp/pb/dictionary/presets/known size; xz checks, filter '
               'chains, several streams; gzip header fields, levels, several members; bzip2 levels/streams; GNU/PAX/USTAR tar), '
-              'each one for both parts every run.  Held-on-observed, not a proof.')
+              'each one for both parts every run.  45% of the packages are closed (close() of the file / a part / twice / `with`) '
+              'in the middle of their queries and asked again; 200 (quick) / 9e3 (thorough) cases keep 2-3 DebFile objects on '
+              'different packages (or one package twice) alive at once and ask them alternately.  Held-on-observed, not a proof.')
 LEVEL_NOTE = ('Trusted: CPython tarfile/gzip/bz2/lzma, vp.models.arwriter (cross-checked with dpkg-deb and ar in the thorough '
               'tier), the packing description as the model.  Corrupt/truncated archives, GNU long ar names and non-"./" tar '
               'member spellings are outside the statement and not generated.')
